@@ -1174,7 +1174,7 @@ func jsonAt(doc interface{}, p []string) interface{} {
 	return cur
 }
 
-var jsonMutNames = []string{"delete", "null", "wrong-type", "non-hex", "odd-hex", "array-null", "negative", "huge-number", "empty-object", "long-hex", "short-hex", "empty-string", "very-long-hex", "fraction-9", "fraction-padded", "tiny-exp", "huge-exp", "neg-fraction", "int-2^24", "int-2^31", "int-2^62", "int-maxint64", "int-minint64", "exp+1e7", "exp-1e7", "frac-exp+1e7"}
+var jsonMutNames = []string{"delete", "null", "wrong-type", "non-hex", "odd-hex", "array-null", "negative", "huge-number", "empty-object", "long-hex", "short-hex", "empty-string", "very-long-hex", "fraction-9", "fraction-padded", "tiny-exp", "huge-exp", "neg-fraction", "int-2^24", "int-2^31", "int-2^62", "int-maxint64", "int-minint64", "exp+1e7", "exp-1e7", "frac-exp+1e7", "script:6a4c00", "script:01024c00", "script:4c0051ae", "script:truncated-push", "script:empty-pushes"}
 
 // jsonPaths lists every path of a document in a deterministic order.
 func jsonPaths(v interface{}, prefix []string) [][]string {
@@ -1337,6 +1337,13 @@ func jsonMutate(doc interface{}, p []string, mk int) (interface{}, bool) {
 			return nil, false
 		}
 		set(json.RawMessage([]string{"1e10000000", "1e-10000000", "0.1E+9999999"}[mk-23]), false)
+	case 26, 27, 28, 29, 30:
+		// a hex string that IS a script, of the kind script classifiers trip over (empty pushes written the long way,
+		// pushes cut short): a decoder that starts looking INTO scripts must cope with all of them
+		if !isStr {
+			return nil, false
+		}
+		set([]string{"6a4c00", "01024c00", "4c0051ae", "76a94c", "004c004d00004e00000000ac"}[mk-26], false)
 	}
 	return root, true
 }
